@@ -246,8 +246,8 @@ func init() {
 		},
 		rule: common + "at least two polls of issued device codes and one user decision (orders of poll / decision / expiry / replay, right and wrong client)"})
 	regHist(&histProp{id: "C17", profile: mk("C17", func(p *Profile) {
-		p.WAuthorize, p.WRedeem, p.WRefresh, p.WRevoke, p.WPassword, p.WDeviceAuth, p.WDecide, p.WDevicePoll = 6, 12, 3, 2, 1, 0, 0, 0
-		p.WPush, p.WAuthorizePAR, p.WAdvance, p.Bad, p.ShortLives, p.ParEnforce, p.PKCE = 22, 34, 12, 22, 50, 30, 30
+		p.WAuthorize, p.WRedeem, p.WRefresh, p.WRevoke, p.WPassword, p.WDeviceAuth, p.WDecide, p.WDevicePoll = 6, 18, 3, 2, 1, 0, 0, 0
+		p.WPush, p.WAuthorizePAR, p.WAdvance, p.Bad, p.ShortLives, p.ParEnforce, p.PKCE = 22, 34, 10, 22, 50, 30, 55
 	}), module: "Cases.Monitors", checkFn: "check_C17", quickN: 300, thoroN: 5000,
 		nontriv: func(h *HHistory, obs []HObs) bool {
 			uses := 0
